@@ -181,6 +181,28 @@ func (se *SpecEnv) eval(x Expr) Value {
 		}
 		sfail("unknown identifier %q", x.Name)
 	case *EUnary:
+		if x.Op == "&" {
+			pk, name := se.pkg, ""
+			switch y := x.X.(type) {
+			case *EIdent:
+				name = y.Name
+			case *EField:
+				if id, ok := y.X.(*EIdent); ok {
+					pk, name = id.Name, y.Name
+				}
+			}
+			if tp := se.e.prog.typPkgs[pk]; tp != nil && name != "" {
+				if gv, ok := tp.Scope().Lookup(name).(*types.Var); ok {
+					ga := "GA!" + pk + "." + name
+					if !se.e.ctx.declared[ga] {
+						se.e.ctx.declConst(ga, "Int")
+						se.e.ctx.axiom("(and (> " + ga + " 0) (<= " + ga + " alloc!0))")
+					}
+					return Value{T: ga, Sort: "Int", GoT: types.NewPointer(gv.Type())}
+				}
+			}
+			sfail("& is only supported on package-level variables")
+		}
 		v := se.eval(x.X)
 		switch x.Op {
 		case "!":
